@@ -302,6 +302,55 @@ fn step(w: &mut World, line: &str) -> String {
             }
             return w.start();
         }
+        "fs" => {
+            // damage one file of the data directory (server stopped): op=rm|trunc|flip file=MANIFEST|wal:<i>|snap:<i> [at=<byte>]
+            if w.child.is_some() {
+                return "running".into();
+            }
+            let data = w.root.join("data");
+            let Some(which) = field(&fs, "file") else { return bad() };
+            let mut names: Vec<String> = std::fs::read_dir(&data)
+                .map(|d| d.flatten().map(|e| e.file_name().to_string_lossy().to_string()).collect())
+                .unwrap_or_default();
+            names.sort();
+            let pick = |prefix: &str, suffix: &str, i: usize| -> Option<String> {
+                names.iter().filter(|n| n.starts_with(prefix) && n.ends_with(suffix)).nth(i).cloned()
+            };
+            let name = if which == "MANIFEST" {
+                Some("MANIFEST".to_string())
+            } else if let Some(i) = which.strip_prefix("wal:") {
+                pick("wal_", ".wal", i.parse().unwrap_or(0))
+            } else if let Some(i) = which.strip_prefix("snap:") {
+                pick("snapshot_", ".snap", i.parse().unwrap_or(0))
+            } else {
+                None
+            };
+            let Some(name) = name else { return "no-such-file".into() };
+            let path = data.join(&name);
+            if !path.exists() {
+                return "no-such-file".into();
+            }
+            let at = nat(&fs, "at").unwrap_or(0) as usize;
+            return match field(&fs, "op") {
+                Some("rm") => std::fs::remove_file(&path).map(|_| "ok".to_string()).unwrap_or_else(|e| format!("io:{e}")),
+                Some("trunc") => match std::fs::read(&path) {
+                    Ok(b) => std::fs::write(&path, &b[..at.min(b.len())]).map(|_| format!("ok len={}", b.len())).unwrap_or_else(|e| format!("io:{e}")),
+                    Err(e) => format!("io:{e}"),
+                },
+                Some("flip") => match std::fs::read(&path) {
+                    Ok(mut b) => {
+                        if b.is_empty() {
+                            return "empty".into();
+                        }
+                        let i = at % b.len();
+                        b[i] ^= 0x01;
+                        std::fs::write(&path, &b).map(|_| format!("ok len={}", b.len())).unwrap_or_else(|e| format!("io:{e}"))
+                    }
+                    Err(e) => format!("io:{e}"),
+                },
+                _ => bad(),
+            };
+        }
         "usage" => {
             let Some(t) = field(&fs, "t") else { return bad() };
             return w.http_usage(t, field(&fs, "scope") == Some("all"));
